@@ -34,6 +34,8 @@ type ProgCheck struct {
 	Eval        func(e *Eval) // runs in a worker
 	// FatalClause, when set, turns a worker death on a program into a failure of this clause.
 	FatalClause string
+	// NoLoad: the program is not Go sources to load in memory (C17 works on disk)
+	NoLoad bool
 	// Extra families explored with the same oracle
 	More []*ProgCheck
 }
@@ -125,14 +127,18 @@ func evalOne(pc *ProgCheck, tier string, idx int, vec []int) (res Result) {
 		}
 	}()
 	p := pc.Synth(&explore.Fixed{Vec: vec})
-	if err := p.Gofmt(); err != nil {
-		res.Internal = err.Error()
-		return
-	}
-	l, err := prog.Load(p)
-	if err != nil {
-		res.Internal = fmt.Sprintf("synthesised program (vector %v, features %v) is not well typed: %v", vec, p.Features, err)
-		return
+	var l *prog.Loaded
+	if !pc.NoLoad {
+		if err := p.Gofmt(); err != nil {
+			res.Internal = err.Error()
+			return
+		}
+		var err error
+		l, err = prog.Load(p)
+		if err != nil {
+			res.Internal = fmt.Sprintf("synthesised program (vector %v, features %v) is not well typed: %v", vec, p.Features, err)
+			return
+		}
 	}
 	e := &Eval{Check: pc, Tier: tier, Prog: p, L: l, Res: &res, Vec: vec, Cost: explore.Cost(vec)}
 	pc.Eval(e)
@@ -147,6 +153,7 @@ func WorkerMain(args []string) {
 	prog.StageMarks = true
 	root := progChecks[args[0]]
 	tier := args[1]
+	currentTier = tier
 	in := bufio.NewScanner(os.Stdin)
 	in.Buffer(make([]byte, 1<<20), 1<<20)
 	out := bufio.NewWriter(os.Stdout)
@@ -158,6 +165,9 @@ func WorkerMain(args []string) {
 		res := evalOne(pc, tier, idx, parseVec(f[2]))
 		enc.Encode(res)
 		out.Flush()
+	}
+	for _, f := range cleanups {
+		f()
 	}
 	os.Exit(0)
 }
@@ -197,9 +207,15 @@ func startWorker(id, tier string) (*worker, error) {
 }
 
 func (w *worker) kill() {
-	w.stdin.Close()
-	w.cmd.Process.Kill()
-	w.cmd.Wait()
+	w.stdin.Close() // the worker exits (and cleans up) at end of input
+	done := make(chan struct{})
+	go func() { w.cmd.Wait(); close(done) }()
+	select {
+	case <-done:
+	case <-time.After(3 * time.Second):
+		w.cmd.Process.Kill()
+		<-done
+	}
 }
 
 const jobTimeout = 180 * time.Second
